@@ -387,6 +387,7 @@ func (Engine) Run(c *simkit.Choices, x *simkit.Ctx) *simkit.Violation {
 	for t := range raw {
 		for _, parts := range raw[t] {
 			conc[t] = append(conc[t], render(parts))
+			x.ObserveStr(conc[t][len(conc[t])-1])
 		}
 	}
 	for t := 0; t < ntasks; t++ {
